@@ -233,3 +233,28 @@ pub(crate) fn bnd_write_compressed_two_priors() {
     assert!(((buf[target_at - 2] as usize) << 8 | buf[target_at - 1] as usize) == tlen);
     assert!(len == target_at + tlen);
 }
+
+/// C12 / D7 cross-check on the real code, complete over its inputs (all payload sizes, all
+/// extended RCODEs 0..=4095, loop-free): the finished message carries the extended RCODE --
+/// lower four bits in the header, upper eight in the first octet of the OPT TTL field -- and
+/// is exactly header + 11-octet OPT record with ARCOUNT 1.
+#[kani::proof]
+#[kani::unwind(13)]
+pub(crate) fn full_opt_ext_rcode_roundtrip() {
+    let mut buf = [0u8; 32];
+    let size: u16 = kani::any();
+    let rcode: u16 = kani::any();
+    kani::assume(rcode <= 4095);
+    let mut w = Writer::new(&mut buf, 32).unwrap();
+    w.set_edns(size).unwrap();
+    w.set_extended_rcode(rcode.into()).unwrap();
+    assert!(u16::from(w.extended_rcode()) == rcode);
+    let len = w.finish();
+    assert!(len == 23);
+    assert!(buf[10] == 0 && buf[11] == 1);
+    assert!(buf[12] == 0 && buf[13] == 0 && buf[14] == 41);
+    assert!(buf[15] == (size >> 8) as u8 && buf[16] == (size & 0xff) as u8);
+    assert!((buf[3] & 0x0f) as u16 == rcode & 0x0f);
+    assert!(buf[17] as u16 == rcode >> 4);
+    assert!(buf[18] == 0 && buf[19] == 0 && buf[20] == 0 && buf[21] == 0 && buf[22] == 0);
+}
